@@ -23,11 +23,11 @@ type verifC10Req struct {
 }
 
 type verifC10Obs struct {
-	BackendCookies [][2]string `json:"backend_cookies"` // name, value pairs the backend saw, in order
-	ClientSet      []string    `json:"client_set"`      // Set-Cookie header values the client received
-	IssuedValue    string      `json:"issued_value"`
-	Status         int         `json:"status"`
-	SessionCookieAtBackend bool `json:"session_cookie_at_backend"`
+	BackendCookies         [][2]string `json:"backend_cookies"` // name, value pairs the backend saw, in order
+	ClientSet              []string    `json:"client_set"`      // Set-Cookie header values the client received
+	IssuedValue            string      `json:"issued_value"`
+	Status                 int         `json:"status"`
+	SessionCookieAtBackend bool        `json:"session_cookie_at_backend"`
 }
 
 func verifRunHistory(h http.Handler, cookieName string, reqs []verifC10Req, cur **verifC10Req, mu *sync.Mutex) []verifC10Obs {
